@@ -235,7 +235,20 @@ def gen_world(r, anp=False, big=False, pods=True, multi_kind=True):
                             rl['ports'] = nports if r.random() < 0.6 else [{'protocol': 'TCP', 'port': r.choice(PORTS)}]
                         npx[dd] = [rl]
                 W['netpols'].append(npx)
-        if r.random() < 0.5:
+        if r.random() < 0.3:
+            # named-port bias: a BANP (and sometimes an ANP) rule on a named port; the name must be resolved on the
+            # DESTINATION pod, whose declaration usually differs from the source's
+            nm = r.choice(NAMES)
+            bd = r.choice(['ingress', 'egress'])
+            W['banp'] = {'name': 'default', 'subject': {'namespaces': {}},
+                         bd: [{'name': 'bn', 'action': r.choice(['Deny', 'Allow']), 'from' if bd == 'ingress' else 'to': [{'namespaces': {}}],
+                               'ports': [{'namedPort': nm}]},
+                              {'name': 'bn2', 'action': 'Deny', 'from' if bd == 'ingress' else 'to': [{'namespaces': {}}],
+                               'ports': [{'namedPort': r.choice(NAMES)}]}]}
+            for w in W['workloads']:
+                if r.random() < 0.7 and not any(cp['name'] == nm for cp in w['ports']):
+                    w['ports'].append({'port': r.choice(PORTS), 'proto': r.choice(PROTOS), 'name': nm})
+        elif r.random() < 0.5:
             b = {'name': 'default', 'subject': asubj()}
             if r.random() < 0.8:
                 b['ingress'] = [arule('ingress', k, True) for k in range(r.randint(1, 3))]
